@@ -66,7 +66,21 @@ def py_int_of_str(I, node, s, st):
     # Deterministic, hence sound for relating two calls on the same text; nothing is assumed
     # about which texts are accepted.
     e = s.expr
-    I.trusted.add('int() on strings of unknown length: uninterpreted deterministic (accepted?, value) pair')
+    I.trusted.add('int() on strings of unknown length: uninterpreted deterministic (accepted?, value) pair, accepted only for texts of integer-literal shape')
+    k = ('int-shape', e.get_id())
+    if k not in I.axiom_keys:
+        # instance axioms (used in the final queries only): int() accepts nothing but
+        # [ws]*[+-]?digit(_?digit)*[ws]*  (non-ASCII characters over-approximated as possible digits/blanks),
+        # and on plain ASCII digits it is the positional value
+        I.axiom_keys.add(k)
+        RS = z3.ReSort(z3.StringSort())
+        nonascii = z3.Range(chr(128), chr(0x10FFFF))
+        ws = z3.Union(z3.Range(chr(9), chr(13)), z3.Range(chr(28), chr(32)), nonascii)
+        dg = z3.Union(z3.Range('0', '9'), nonascii)
+        shape = z3.Concat(z3.Star(ws), z3.Option(z3.Union(z3.Re('+'), z3.Re('-'))), dg,
+                          z3.Star(z3.Concat(z3.Option(z3.Re('_')), dg)), z3.Star(ws))
+        I.axioms.append(z3.Implies(PYINT_OK(e), z3.InRe(e, shape)))
+        I.axioms.append(z3.Implies(z3.InRe(e, z3.Plus(z3.Range('0', '9'))), z3.And(PYINT_OK(e), PYINT_VAL(e) == z3.StrToInt(e))))
     for st3, b3 in I.split(st, PYINT_OK(e)):
         if b3:
             yield st3, SInt(PYINT_VAL(e))
